@@ -1226,7 +1226,9 @@ func (s *Service) processRequest(m *nats.Msg, rtype, rname, method string, mh *M
 func (s *Service) queryEventExpire(v interface{}) {
 	qe := v.(*queryEvent)
 	qe.sub.Drain()
+	close(qe.done)
 	s.runWith(qe.r.Group(), func() {
+		atomic.StoreInt32(&qe.expired, 1)
 		qe.cb(nil)
 	})
 }
